@@ -1,6 +1,63 @@
-From Coq Require Import List NArith Bool.
-From NV Require Import Gen.Fat.
+(* C03 -- Reading a FAT volume yields exactly what its on-disk structures define. Statements only. *)
+From Coq Require Import List NArith ZArith Bool.
+From NV Require Import Lib.Res Gen.Fat Fat.Spec.
+From NV Require Import FatTable.Model FatTable.ProofsBase FatTable.ProofsSet32 FatTable.Proofs.
+From NV Require Import FatRead.Model FatRead.ProofsBase FatRead.ProofsGeom FatRead.ProofsRead FatRead.ProofsTime FatRead.Proofs.
+Import ListNotations.
 Open Scope N_scope.
+
+(* the FAT entry the code reads = the bit-level entry of the specification, for all three widths, every table, every index in range (odd/even and byte-straddling cases included) *)
+Theorem C03_fat_entry_spec :
+  forall (bits : N) (t : list N) (n : N), bytes t -> Proofs.in_range bits t n -> get bits t n = Ok (nth (N.to_nat n) (decode_fat bits t) 0).
+Proof. exact FatTable.Proofs.get_spec. Qed.
+Print Assumptions C03_fat_entry_spec.
+
+Theorem C03_fat_entry_index_error :
+  forall (bits : N) (t : list N) (n : N), ~ Proofs.in_range bits t n -> get bits t n = Err IndexError.
+Proof. exact FatTable.Proofs.get_index_error. Qed.
+Print Assumptions C03_fat_entry_index_error.
+
+(* region offsets, sizes, cluster count and FAT type computed as FatFileSystem.__init__ does = the specification reader, for every header in the common domain *)
+Theorem C03_geometry_spec :
+  forall img : list N, 90 <= lenN img -> q_total_unused (parse img) -> same_verdict (geometry_model img) (geometry img).
+Proof. exact FatRead.ProofsGeom.geometry_spec. Qed.
+Print Assumptions C03_geometry_spec.
+
+Theorem C03_cluster_offset_spec :
+  forall (img : list N) (m : geom_m) (g : geom) (c : N), geometry_model img = Ok m -> agree m g -> let data := data_area m img in let n := clusters_len (m_cs m) data in n = g_count g /\ (2 <= c < g_count g + 2 -> cluster_get (m_cs m) data n c = Ok (cluster_bytes g img c) /\ cluster_bytes g img c = slice (m_data_off m + (c - 2) * m_cs m) (m_cs m) img /\ length (cluster_bytes g img c) = N.to_nat (m_cs m)) /\ (~ 2 <= c < g_count g + 2 -> cluster_get (m_cs m) data n c = Err IndexError).
+Proof. exact FatRead.ProofsGeom.cluster_offset_spec. Qed.
+Print Assumptions C03_cluster_offset_spec.
+
+(* ANY sequence of seek / read / readinto / readall on a file = the same sequence on the content held in memory *)
+Theorem C03_read_refines :
+  forall (cs : N) (data map : list N) (size : N) (ops : list op), 0 < cs -> wf_file cs data map size -> run_file cs data map size ops = ref_run cs (content cs data map size) ops 0.
+Proof. exact FatRead.ProofsRead.run_file_refines. Qed.
+Print Assumptions C03_read_refines.
+
+Theorem C03_raw_read_spec :
+  forall (cs : N) (data : list N), 0 < cs -> forall (n : N) (map : list N) (size pos : N) (b : list N) (st' : fstate), wf_file cs data map size -> readinto cs data (nclusters cs data) n (mkfile map size pos) = Ok (b, st') -> exists m : N, b = firstn (N.to_nat m) (skipn (N.to_nat pos) (content cs data map size)) /\ N.of_nat (length b) = m /\ m <= n /\ (m = 0 <-> n = 0 \/ size <= pos) /\ st' = mkfile map size (pos + m).
+Proof. exact FatRead.ProofsRead.raw_read_spec. Qed.
+Print Assumptions C03_raw_read_spec.
+
+(* repeating raw reads (what io.BufferedReader does) yields exactly the requested slice *)
+Theorem C03_read_loop_refines :
+  forall (cs : N) (data : list N), 0 < cs -> forall (map : list N) (size n pos : N), wf_file cs data map size -> read_full cs data (nclusters cs data) n (mkfile map size pos) = Ok (firstn (N.to_nat n) (skipn (N.to_nat pos) (content cs data map size)), mkfile map size (pos + N.min n (size - pos))).
+Proof. exact FatRead.ProofsRead.read_loop_refines. Qed.
+Print Assumptions C03_read_loop_refines.
+
+(* reading never changes map or size (and no data area occurs in any result type) *)
+Theorem C03_reads_preserve_file :
+  forall (cs : N) (data : list N) (n : N) (o : op) (st : fstate), f_map (snd (step cs data n o st)) = f_map st /\ f_size (snd (step cs data n o st)) = f_size st.
+Proof. exact FatRead.ProofsRead.run_preserves_file. Qed.
+Print Assumptions C03_reads_preserve_file.
+
+Theorem C03_timestamp_spec :
+  forall date time cs : N, decode_timestamp_fields date time cs = (1980 + (date / 2 ^ 9) mod 2 ^ 7, (date / 2 ^ 5) mod 2 ^ 4, date mod 2 ^ 5, (time / 2 ^ 11) mod 2 ^ 5, (time / 2 ^ 5) mod 2 ^ 6, 2 * (time mod 2 ^ 5) + cs * 10 / 1000, (cs * 10) mod 1000 * 1000).
+Proof. exact FatRead.ProofsTime.timestamp_spec. Qed.
+Print Assumptions C03_timestamp_spec.
+
+
+(* constants and layouts regenerated from fat.py / fs.py on every run *)
 Theorem C03_source_facts :
   (fat12_min_valid, fat12_max_valid, fat12_end_mark) = (2, 4079, 4095) /\
   (fat16_min_valid, fat16_max_valid, fat16_end_mark) = (2, 65519, 65535) /\
